@@ -247,7 +247,12 @@ def runLive04 (kv : List (String × String)) : IO Res := do
     | .ok l => pure l
     | .error e => return .bad e
   let mut tags := cfgTags lc.cfg
-  if lc.result != "ok" then return .ok ("dump.failed" :: tags)
+  if lc.result != "ok" then
+    -- the requests with exiting, busy or slow threads ask for nothing that can fail for good (their destination accepts
+    -- everything): a thread that is gone or cannot be attached to is left out and reported, the others are listed
+    if (get kv "exited").isSome || (get kv "busy").isSome || (get kv "eintr").isSome then
+      return .propfail s!"the request failed ({lc.result}): no thread is listed, although the threads that exist throughout can be attached to" tags
+    return .ok ("dump.failed" :: tags)
   let exited := ((get kv "exited").bind natList).getD []
   let traced := get kv "traced" == some "1"
   if !exited.isEmpty then tags := s!"exits.{(get kv "point").getD "?"}" :: tags
@@ -446,8 +451,12 @@ def runLive07 (kv : List (String × String)) : IO Res := do
         a := min (p + l) ((a / 4096 + 1) * 4096)
       return a - p
     if l % 8 != 0 then tags := "app.partialword" :: tags
-    -- … which is what the reader model yields
-    match (modelApp.find? (fun (p', l0, _) => p' == p && l0 == l)).bind (·.2.2) with
+    -- … which is what the reader model yields (the page-wise rule describes a read that begins in readable memory; one
+    -- that begins in a mapped page without read permission falls back to /proc/<pid>/mem and is decided by the reader
+    -- model alone)
+    let modelBytes := (modelApp.find? (fun (p', l0, _) => p' == p && l0 == l)).bind (·.2.2)
+    let l' := if !ptraceOnly && !readableAt p then (modelBytes.map (·.length)).getD l' else l'
+    match modelBytes with
     | some b =>
       if b.length != l' then
         return .mismatch s!"application region ({p},{l}): the reader model copies {b.length} bytes, the page-wise rule {l'}" tags
